@@ -44,6 +44,9 @@ def OP_EQ(
         left: func_xltypes.XlAnything,
         right: func_xltypes.XlAnything
 ) -> func_xltypes.XlBoolean:
+    for value in (left, right):
+        if isinstance(value, xlerrors.ExcelError):
+            return value
     return left == right
 
 
@@ -52,6 +55,9 @@ def OP_NE(
         left: func_xltypes.XlAnything,
         right: func_xltypes.XlAnything
 ) -> func_xltypes.XlBoolean:
+    for value in (left, right):
+        if isinstance(value, xlerrors.ExcelError):
+            return value
     return left != right
 
 
